@@ -52,10 +52,10 @@ MC_FAMS = {
     ("C04", "quick"): [("MCEngF2", 2, 2, {}, False)],
     ("C04", "thorough"): [("MCEngF2", 2, 3, {}, False), ("MCEngF3", 3, 1, {}, False), ("MCEngFW2", 2, 1, {}, False),
                           ("MCEngF3L", 3, 1, {}, False)],
-    ("C05", "quick"): [("MCEngL1", 3, 0, {}, False), ("MCEngL2", 3, 0, {}, False), ("MCEngP", 2, 0, {}, False)],
-    ("C05", "thorough"): [("MCEngL1", 3, 0, {}, False), ("MCEngL2", 3, 0, {}, False), ("MCEngA", 3, 0, {}, False), ("MCEngP", 3, 0, {}, False),
+    ("C05", "quick"): [("MCEngL1", 3, 0, {}, False), ("MCEngL2", 3, 0, {}, False), ("MCEngP", 2, 0, {}, False), ("MCEngM", 2, 0, {}, False)],
+    ("C05", "thorough"): [("MCEngL1", 3, 0, {}, False), ("MCEngL2", 3, 0, {}, False), ("MCEngA", 3, 0, {}, False), ("MCEngP", 3, 0, {}, False), ("MCEngM", 3, 0, {}, False),
                           ("MCEngS", 4, 0, {}, False)],
-    ("C09", "quick"): [("MCEngF2", 2, 0, {}, False)],
+    ("C09", "quick"): [("MCEngF2", 2, 0, {}, False), ("MCEngM", 2, 0, {}, False)],
     ("C09", "thorough"): [("MCEngF2", 2, 1, {}, False), ("MCEngF3", 3, 0, {}, False), ("MCEngF3L", 3, 0, {}, False),
                           ("MCEngFW2", 2, 0, {}, False)],
 }
@@ -185,7 +185,7 @@ def scenarios_for(prop, tier, rng):
         for n, cnt in ([(3, 500), (4, 300), (6, 80)] if not thorough else [(3, 6000), (4, 6000), (5, 3000), (6, 1500), (8, 500)]):
             for _ in range(cnt):
                 add(el.rand_scenario(rng, n, p_edge=rng.choice([0.25, 0.4, 0.6]), fails=rng.choice([0.15, 0.4]),
-                                     wraps=rng.choice([0, 0, 0.3]), lazies=rng.choice([0, 0.3]),
+                                     wraps=rng.choice([0, 0, 0.3]), lazies=rng.choice([0, 0.3]), modes=rng.choice([0, 0.2]),
                                      lookups=3 if prop == "C04" else 0, sid=sid()))
         for n in ([12, 30] if not thorough else [12, 30, 60, 120]):
             for sh in ["chain", "ring", "diamond", "cycletail", "dense"]:
@@ -208,7 +208,8 @@ def scenarios_for(prop, tier, rng):
                                 seed=rng.randint(0, 2 ** 31), sid=sid(), procs=[rng.random() < 0.5 for _ in range(rng.randint(0, 2))]))
         for n, cnt in ([(3, 300), (4, 300), (6, 100), (8, 50)] if not thorough else [(3, 4000), (4, 5000), (5, 2500), (6, 1500), (8, 600)]):
             for _ in range(cnt):
-                add(el.rand_scenario(rng, n, p_edge=rng.choice([0.2, 0.35, 0.6]), lazies=rng.choice([0.2, 0.5]), sid=sid(), procs=True))
+                add(el.rand_scenario(rng, n, p_edge=rng.choice([0.2, 0.35, 0.6]), lazies=rng.choice([0.2, 0.5]), sid=sid(), procs=True,
+                                     modes=rng.choice([0, 0.25]), fails=rng.choice([0, 0, 0.15])))
         for n in ([12, 25, 40] if not thorough else [12, 25, 40, 80, 150]):
             for sh in ["chain", "diamond", "cycletail", "fanin", "dense", "ring"]:
                 lz = [i for i in range(1, n + 1) if rng.random() < 0.3]
